@@ -143,6 +143,18 @@ func checkC08(e *Engine, r *Report) {
 					short := TopParent(fn).Name()
 					if reason, ok := exact[short]; ok && exactSizeGuard(e, fn, x, chainRoots, fCnt) {
 						okCnt, why = true, "reviewed exact-size site: "+reason
+						// at an exact-size site the count is not reduced by X.Size() but set to 0: when the union is made on
+						// the helper's own result (not on locals that are copied back later), every way on to a return must
+						// have stored that 0 — otherwise allocate() sees a non-zero count and hands back an empty set
+						if f, _ := loadedField(u.Common().Args[0]); f == fRes {
+							zeroed := func(in ssa.Instruction) bool {
+								st, ok := in.(*ssa.Store)
+								return ok && fieldOfAddr(st.Addr) == fCnt && isConstInt(st.Val, 0)
+							}
+							if p := FindPath(PathQuery{Fn: fn, From: u, Target: isRet, Block: zeroed}); p != nil {
+								okCnt, why = false, "the exact-size take does not set the remaining count to 0: "+e.pathString(p)
+							}
+						}
 					}
 				}
 				r.Check("R5:count@"+site, "R5 paired update", "the remaining count is reduced by exactly X.Size() in the same step (or the step is a reviewed exact-size site)",
